@@ -425,6 +425,31 @@ def run(ctx):
         ok = len(t0.orelse) == 1 and isinstance(t0.orelse[0], ast.If) and "self._is_read_error" in astq.text(t0.orelse[0].test)
     ctx.ob(R7, inc.qual, "read classification is consulted before the ungated `other` branch", ok)
 
+    rule_r8(ctx)
+
+    # ------------------------------------------------------------------ R11, R12
+    R11 = ctx.rule("C04-R11", "the default allow-list contains only idempotent methods", "E2")
+    dm = fold.need_class(RETRY, "DEFAULT_ALLOWED_METHODS")
+    idem = {"HEAD", "GET", "PUT", "DELETE", "OPTIONS", "TRACE"}
+    ctx.ob(R11, RETRY, f"DEFAULT_ALLOWED_METHODS {sorted(dm)} within idempotent set", set(dm) <= idem and len(dm) >= 2, f"non-idempotent: {sorted(set(dm) - idem)}")
+    d = init.defaults().get("allowed_methods")
+    ctx.ob(R11, init.qual, "constructor default is DEFAULT_ALLOWED_METHODS", d is not None and astq.text(d) == "DEFAULT_ALLOWED_METHODS")
+    R12 = ctx.rule("C04-R12", "the server's Retry-After is honoured only when asked: the header-driven sleep is attempted only under respect_retry_after_header and a response", "E5 on sleep")
+    sl = m.method(RETRY, "sleep")
+    cs = [c for c in astq.calls(sl.node) if astq.call_text(c) == "self.sleep_for_retry"]
+    ctx.sites(R12, len(cs), 1, "sleep_for_retry call in sleep")
+    for c in cs:
+        g = astq.enclosing(c, ast.If)
+        ok = g is not None and astq.text(g.test) in ("self.respect_retry_after_header and response", "response and self.respect_retry_after_header")
+        ctx.ob(R12, sl.qual, "guarded by respect_retry_after_header and response", ok, astq.text(g.test) if g is not None else "unguarded", node=c)
+    sfr = m.method(RETRY, "sleep_for_retry")
+    ok = any(isinstance(n, ast.If) and astq.text(n.test) == "retry_after" for n in astq.walk_fn(sfr.node))
+    ctx.ob(R12, sfr.qual, "sleeps only for a positive Retry-After", ok)
+
+
+def rule_r8(ctx):
+    """C04-R8 (shared with C09-R9): classification must not read state that the failing step's cleanup resets."""
+    m = ctx.model
     # ------------------------------------------------------------------ R8 no classification on state reset by cleanup (F11)
     R8 = ctx.rule("C04-R8", "the proxy-vs-origin classification in urlopen's error handler must not read connection state that the failing step's own cleanup resets (close() clears it), or a post-send failure is reported as a proxy connect failure and bypasses the method gate", "E6 mod/ref incl. the stdlib slice")
     uo = m.method(f"{CP}.HTTPConnectionPool", "urlopen")
@@ -461,21 +486,3 @@ def run(ctx):
                        "a reset while reading the response looks like 'never connected to the proxy' -> ProxyError -> category `other` -> a POST is sent twice", node=node)
     ctx.sites(R8, nn, 1, "connection-state reads in urlopen's error handler")
 
-    # ------------------------------------------------------------------ R11, R12
-    R11 = ctx.rule("C04-R11", "the default allow-list contains only idempotent methods", "E2")
-    dm = fold.need_class(RETRY, "DEFAULT_ALLOWED_METHODS")
-    idem = {"HEAD", "GET", "PUT", "DELETE", "OPTIONS", "TRACE"}
-    ctx.ob(R11, RETRY, f"DEFAULT_ALLOWED_METHODS {sorted(dm)} within idempotent set", set(dm) <= idem and len(dm) >= 2, f"non-idempotent: {sorted(set(dm) - idem)}")
-    d = init.defaults().get("allowed_methods")
-    ctx.ob(R11, init.qual, "constructor default is DEFAULT_ALLOWED_METHODS", d is not None and astq.text(d) == "DEFAULT_ALLOWED_METHODS")
-    R12 = ctx.rule("C04-R12", "the server's Retry-After is honoured only when asked: the header-driven sleep is attempted only under respect_retry_after_header and a response", "E5 on sleep")
-    sl = m.method(RETRY, "sleep")
-    cs = [c for c in astq.calls(sl.node) if astq.call_text(c) == "self.sleep_for_retry"]
-    ctx.sites(R12, len(cs), 1, "sleep_for_retry call in sleep")
-    for c in cs:
-        g = astq.enclosing(c, ast.If)
-        ok = g is not None and astq.text(g.test) in ("self.respect_retry_after_header and response", "response and self.respect_retry_after_header")
-        ctx.ob(R12, sl.qual, "guarded by respect_retry_after_header and response", ok, astq.text(g.test) if g is not None else "unguarded", node=c)
-    sfr = m.method(RETRY, "sleep_for_retry")
-    ok = any(isinstance(n, ast.If) and astq.text(n.test) == "retry_after" for n in astq.walk_fn(sfr.node))
-    ctx.ob(R12, sfr.qual, "sleeps only for a positive Retry-After", ok)
